@@ -47,8 +47,10 @@ def _to_first(y):
   return np.transpose(y, [0, r - 1] + list(range(1, r - 1)))
 
 
-def _run_stock(layer, x, weights):
+def _run_stock(layer, x, weights, dtype=F32):
   import tensorflow as tf  # pylint: disable=g-import-not-at-top
+  x = np.asarray(x, dtype=dtype)
+  weights = [np.asarray(w, dtype=dtype) for w in weights]
   layer.build(tuple(x.shape))
   have = [tuple(w.shape) for w in layer.get_weights()]
   want = [tuple(w.shape) for w in weights]
@@ -57,9 +59,62 @@ def _run_stock(layer, x, weights):
                          (have, want))
   if weights:
     layer.set_weights(weights)
-  return np.asarray(layer(tf.constant(x), training=False).numpy(), dtype=F32)
+  return np.asarray(layer(tf.constant(x), training=False).numpy(), dtype=dtype)
 
 
+def _stock_forward(case, x, qw, info, dtype=F32):
+  """Stock layer of the case (activation=None) on weights qw; channels_first
+  falls back to the transposed channels_last layer when the CPU kernel
+  rejects NCHW."""
+  cf = case["kw"].get("data_format") == "channels_first"
+  dt = None if dtype == F32 else "float64"
+  try:
+    return _run_stock(G.build_stock(case, dtype=dt), x, qw, dtype)
+  except AssertionError:
+    raise
+  except Exception as e:  # pylint: disable=broad-except
+    if not cf:
+      raise StockUnsupported("%s: %s" % (type(e).__name__, str(e)[:200]))
+    # The CPU kernels of the stock layer do not take NCHW: same stock layer in
+    # channels_last on the transposed input (weight layouts do not depend on
+    # data_format).
+    info["cf_transposed_ref"] = True
+    try:
+      return _to_first(_run_stock(
+          G.build_stock(case, data_format="channels_last", dtype=dt),
+          _to_last(np.asarray(x)), qw, dtype))
+    except AssertionError:
+      raise
+    except Exception as e2:  # pylint: disable=broad-except
+      raise StockUnsupported("%s: %s" % (type(e2).__name__, str(e2)[:200]))
+
+
+def paths_differ(case):
+  """Configurations where the QKeras layer and the stock layer are known to run
+  *different* float32 convolution code: QConv1D calls tf.keras.backend.conv1d
+  (plain TF kernel) while the stock Conv1D with groups > 1 goes through its
+  XLA-compiled `_jit_compiled_convolution_op`, whose use of fused
+  multiply-adds depends on the input shape.  Everywhere else both sides reach
+  the same TF op with the same arguments (QConv2D with groups compiles the
+  same function itself)."""
+  return case["layer"] == "QConv1D" and case["kw"].get("groups", 1) > 1
+
+
+def conv_ref64(case, ws, x, qlist):
+  """float64 value of the stock layer on the pre-quantized weights (no
+  activation) and the float32 evaluation-error bound of ANY order of
+  evaluation of that convolution:
+     (n_terms + 3) * 2^-23 * (sum |w_i x_i| + |b|)  (+ denormal floor),
+  n_terms = kernel taps * input channels per group."""
+  roles = G.weight_roles(case)
+  qw = [quantize(qlist.get(r), ws[r]) for r in roles]
+  info = {}
+  ref = _stock_forward(case, x, qw, info, dtype=np.float64)
+  mag = _stock_forward(case, np.abs(x), [np.abs(w) for w in qw], info,
+                       dtype=np.float64)
+  k = ws[roles[0]]
+  n_terms = int(np.prod(k.shape[:-1]))
+  return ref, (n_terms + 3) * 2.0 ** -23 * mag + 1e-37, qw
 def feedforward(case, ws, x, qlist, act, mask_first=False):
   """Dense / Conv / Depthwise / Separable / ScaleShift.
 
@@ -88,25 +143,8 @@ def feedforward(case, ws, x, qlist, act, mask_first=False):
     if len(qw) > 1:
       y = tf.add(tf.constant(qw[1]), y)
     return apply_act(act, y.numpy()), info
-  cf = case["kw"].get("data_format") == "channels_first"
-  try:
-    y = _run_stock(G.build_stock(case), x, qw)
-  except AssertionError:
-    raise
-  except Exception as e:  # pylint: disable=broad-except
-    if not cf:
-      raise StockUnsupported("%s: %s" % (type(e).__name__, str(e)[:200]))
-    # The CPU kernels of the stock layer do not take NCHW: same stock layer in
-    # channels_last on the transposed input (weight layouts do not depend on
-    # data_format).
-    info["cf_transposed_ref"] = True
-    try:
-      y = _to_first(_run_stock(G.build_stock(case, data_format="channels_last"),
-                               _to_last(x), qw))
-    except AssertionError:
-      raise
-    except Exception as e2:  # pylint: disable=broad-except
-      raise StockUnsupported("%s: %s" % (type(e2).__name__, str(e2)[:200]))
+  y = _stock_forward(case, x, qw, info)
+  info["pre_activation"] = y
   return apply_act(act, y), info
 
 
